@@ -492,6 +492,98 @@ func C19(c *core.Ctx) {
 		c.Decide(len(eff) > 0 && g.OK && g.PassEdges > 0, "R19.2", "sweep-removes-only-unmarked", p.Pos(ru.Pos()), "only unmarked prefixes are withdrawn", "RemoveUnmarked can withdraw a prefix that was marked in this rebuild")
 	}
 
+	// ---- R19.12 the sweep forgets what it withdraws: when RemoveUnmarked itself drops the
+	// name of an unmarked prefix (instead of leaving that to UpdateH, which stores the
+	// resulting entries back or deletes them), it also drops the recorded entries of that
+	// prefix. Entries left behind make a later UpdateH believe the routes are still
+	// installed (cost == prevCost): a prefix that comes back on the same face at the same
+	// cost is never registered again.
+	if ru := c.Fn("R19.12", "dv/table", "Fib", "RemoveUnmarked"); ru != nil {
+		var drops, clears []ssa.Instruction
+		core.Instrs(ru, func(in ssa.Instruction) {
+			if isMapDelete(in, "names") {
+				drops = append(drops, in)
+			}
+			if isMapDelete(in, "prefixes") {
+				clears = append(clears, in)
+			}
+			if mu, ok := in.(*ssa.MapUpdate); ok {
+				if _, okF := core.FieldOf(mu.Map, "prefixes"); okF {
+					clears = append(clears, in)
+				}
+			}
+			if _, ok := core.IsCall(in, core.CalleeID{Pkg: "dv/table", Recv: "Fib", Name: "UpdateH"}, core.CalleeID{Pkg: "dv/table", Recv: "Fib", Name: "Update"}); ok {
+				clears = append(clears, in)
+			}
+		})
+		bad := ""
+		for _, d := range drops {
+			ok := false
+			for _, x := range clears {
+				if x.Block() == d.Block() || x.Block().Dominates(d.Block()) || d.Block().Dominates(x.Block()) {
+					ok = true
+				}
+			}
+			if !ok {
+				bad = c.Pos(d)
+			}
+		}
+		c.Decide(bad == "", "R19.12", "sweep-forgets-what-it-withdraws", p.Pos(ru.Pos()), fmt.Sprintf("%d direct removals of a prefix name in the sweep, each with the recorded entries removed alongside", len(drops)), "RemoveUnmarked drops the name of a swept prefix at "+bad+" but keeps its recorded entries in fib.prefixes: when the prefix returns on the same face at the same cost UpdateH finds cost == prevCost and registers nothing — the route stays missing")
+	}
+	// ---- R19.13 an index of the installed entries follows the list: when UpdateH finds
+	// the entry of a face through a map built in the call (instead of scanning the list),
+	// and the list grows inside the loop that consults the map, the map is extended in
+	// that loop too. Otherwise a face that occurs twice among the NEW entries (a prefix
+	// announced by two routers reached over one face) is appended twice.
+	if uh := c.Fn("R19.13", "dv/table", "Fib", "UpdateH"); uh != nil {
+		bad := ""
+		nIdx := 0
+		core.Instrs(uh, func(in ssa.Instruction) {
+			lk, ok := in.(*ssa.Lookup)
+			if !ok {
+				return
+			}
+			mk, isMk := core.Strip(lk.X).(*ssa.MakeMap)
+			if !isMk {
+				return
+			}
+			hs := enclosingLoops(lk.Block())
+			if len(hs) == 0 {
+				return
+			}
+			h := hs[0]
+			inLoop := func(b *ssa.BasicBlock) bool {
+				for _, x := range enclosingLoops(b) {
+					if x == h {
+						return true
+					}
+				}
+				return false
+			}
+			grows, follows := false, false
+			core.Instrs(uh, func(x ssa.Instruction) {
+				if !inLoop(x.Block()) {
+					return
+				}
+				if cl, okC := isBuiltinCall(x, "append"); okC {
+					if _, isSl := cl.Type().Underlying().(*types.Slice); isSl {
+						grows = true
+					}
+				}
+				if mu, okM := x.(*ssa.MapUpdate); okM && core.Strip(mu.Map) == ssa.Value(mk) {
+					follows = true
+				}
+			})
+			if grows {
+				nIdx++
+				if !follows {
+					bad = c.Pos(lk)
+				}
+			}
+		})
+		c.Decide(bad == "", "R19.13", "entry-index-follows-the-list", p.Pos(uh.Pos()), fmt.Sprintf("%d map indexes consulted inside a loop that extends the list, each extended there too", nIdx), "UpdateH looks up the entry of a face in a map built before the merge (at "+bad+") while the merge appends entries the map never learns about: a face listed twice among the new entries is stored, and registered, twice (or with the higher cost last)")
+	}
+
 	// ---- R19.3 the local table is changed before the operation is published (publishOp
 	// may take a snapshot of the table, which must already reflect the operation)
 	for _, m := range []string{"Announce", "Withdraw"} {
